@@ -12,6 +12,8 @@ import Mathlib.Tactic.Ring
 import Mathlib.Tactic.Linarith
 import Mathlib.Data.List.Forall2
 import Mathlib.Data.Rat.Floor
+import Mathlib.Algebra.BigOperators.Group.List.Basic
+import Mathlib.Algebra.Order.BigOperators.Group.List
 
 namespace AbtemVerif.Props.C18
 open AbtemVerif.Chunks AbtemVerif.Py AbtemVerif.Gen.Chunks AbtemVerif
@@ -192,8 +194,8 @@ lemma foldl_max_le (a : Int) (l : List Int) (h : ∀ x ∈ l, x ≤ a) : l.foldl
 Full end-to-end statement for *mixed* specifications (not proved; observed by the conformance oracle
 `auto-chunks-exceed-limit`): `validateChunks shape ch (some M) = .ok v` with all dimensions ≥ 1, a well-formed `ch` mixing
 'auto' with fixed ints / tuples and `∏ fixed ≤ M` implies `∏ᵢ maxOf vᵢ ≤ M`.  The all-automatic case (an integer `chunks`)
-is proved end to end below (`auto_all_within_limit`); missing for mixes: the interleaving of fixed and automatic
-dimensions through `classify` / `rebuild`. -/
+is proved end to end below (`auto_all_within_limit`), mixes in `auto_mixed_within_limit`; this lemma keeps its
+`_partial` name because it is only the per-dimension link. -/
 theorem fill_int_max_partial (s c : Int) (hc : 1 ≤ c) (hcs : c ≤ s) :
     ∃ v, fillDim s (.int c) = .ok v ∧ maxOf v = c := by
   obtain ⟨v, hv, _, hmem, hform⟩ := fill_int_spec s c (by omega) hc
@@ -211,17 +213,45 @@ theorem fill_int_max_partial (s c : Int) (hc : 1 ≤ c) (hcs : c ≤ s) :
 
 /-! ### validate_chunks: whatever is returned matches the shape -/
 
-lemma assertMatch_ok (shape : List Int) (v w : Validated) (h : assertMatch shape v = .ok w) :
-    w = v ∧ ∀ p ∈ shape.zip v, p.2.sum = p.1 := by
+lemma assertMatch_ok' (shape : List Int) (v w : Validated) (h : assertMatch shape v = .ok w) :
+    w = v ∧ (∀ p ∈ shape.zip v, p.2.sum = p.1) ∧ ∀ cc ∈ v, ∀ x ∈ cc, 0 ≤ x := by
   unfold assertMatch at h
   split at h
-  · rename_i hall
-    simp only [Except.ok.injEq] at h
-    refine ⟨h.symm, ?_⟩
-    intro p hp
-    have := List.all_eq_true.1 hall p hp
-    simpa using this
   · simp at h
+  · rename_i hneg
+    split at h
+    · rename_i hall
+      simp only [Except.ok.injEq] at h
+      refine ⟨h.symm, ?_, ?_⟩
+      · intro p hp
+        have := List.all_eq_true.1 hall p hp
+        simpa using this
+      · intro cc hcc x hx
+        by_contra hlt
+        apply hneg
+        rw [List.any_eq_true]
+        exact ⟨cc, hcc, List.any_eq_true.2 ⟨x, hx, by simp [chunkIsNegative]; omega⟩⟩
+    · simp at h
+
+lemma assertMatch_ok (shape : List Int) (v w : Validated) (h : assertMatch shape v = .ok w) :
+    w = v ∧ ∀ p ∈ shape.zip v, p.2.sum = p.1 :=
+  ⟨(assertMatch_ok' shape v w h).1, (assertMatch_ok' shape v w h).2.1⟩
+
+lemma assertMatch_of (shape : List Int) (v : Validated) (hnn : ∀ cc ∈ v, ∀ x ∈ cc, 0 ≤ x)
+    (hs : ∀ p ∈ shape.zip v, p.2.sum = p.1) : assertMatch shape v = .ok v := by
+  unfold assertMatch
+  have h1 : (v.any fun c => c.any chunkIsNegative) = false := by
+    rw [List.any_eq_false]
+    intro cc hcc
+    rw [Bool.not_eq_true, List.any_eq_false]
+    intro x hx
+    have := hnn cc hcc x hx
+    simp [chunkIsNegative]; omega
+  have h2 : ((shape.zip v).all fun (p : Int × List Int) => decide (p.2.sum = p.1)) = true := by
+    rw [List.all_eq_true]; intro p hp; simpa using hs p hp
+  simp only [h1, Bool.false_eq_true, if_false]
+  rw [if_pos]
+  simpa using h2
 
 lemma forall₂_of_zip {α β : Type} (R : α → β → Prop) (xs : List α) (ys : List β) (hl : xs.length = ys.length)
     (h : ∀ p ∈ xs.zip ys, R p.1 p.2) : List.Forall₂ R xs ys := by
@@ -319,6 +349,55 @@ theorem validated_sum_eq_shape (shape : List Int) (ch : ChunkArg) (m : Option In
             exact forall₂_of_zip _ _ _ (by rw [this]; simp [hlen]) (fun p hp => hz p hp)
           · simp at h
 
+
+/-- **Validated chunk sizes are never negative** (since fix 3dfb10ad), whatever the chunk argument. -/
+theorem validated_nonneg (shape : List Int) (ch : ChunkArg) (m : Option Int) (v : Validated)
+    (h : validateChunks shape ch m = .ok v) : ∀ cc ∈ v, ∀ x ∈ cc, 0 ≤ x := by
+  have key : ∀ (r : Except String Validated), (r >>= assertMatch shape) = .ok v → ∀ cc ∈ v, ∀ x ∈ cc, 0 ≤ x := by
+    intro r hr
+    cases r with
+    | error e => simp [bind, Except.bind] at hr
+    | ok w =>
+      simp only [bind, Except.bind] at hr
+      obtain ⟨rfl, _, hnn⟩ := assertMatch_ok' _ _ _ hr
+      exact hnn
+  cases ch with
+  | str => simp [validateChunks] at h
+  | bad => simp [validateChunks] at h
+  | int c =>
+    simp only [validateChunks] at h
+    split at h <;> exact key _ h
+  | tuple l =>
+    simp only [validateChunks] at h
+    cases hcl : checkLength shape l with
+    | error e => simp [hcl, bind, Except.bind] at h
+    | ok u =>
+      simp only [hcl, bind, Except.bind] at h
+      split at h
+      · obtain ⟨rfl, _, hnn⟩ := assertMatch_ok' _ _ _ h
+        exact hnn
+      · split at h
+        · exact key _ h
+        · split at h
+          · exact key _ h
+          · simp at h
+
+/-- … so the chunk ranges of every validated dimension are those of `Lib/Partition`: contiguous, pairwise disjoint and
+covering `0 … shape-1` exactly once (`Partition.ranges_cover`, `ranges_disjoint`, `block_local_unique`). -/
+theorem validated_ranges_partition (shape : List Int) (ch : ChunkArg) (m : Option Int) (v : Validated)
+    (h : validateChunks shape ch m = .ok v) :
+    ∀ cc ∈ v, chunkRanges1 cc = (Partition.ranges (cc.map Int.toNat)).map fun r => ((r.1 : Int), (r.2 : Int)) := by
+  intro cc hcc
+  have hnn := validated_nonneg shape ch m v h cc hcc
+  have : cc = (cc.map Int.toNat).map Int.ofNat := by
+    rw [List.map_map]
+    conv_lhs => rw [← List.map_id cc]
+    apply List.map_congr_left
+    intro x hx
+    simp only [id, Function.comp]
+    exact (Int.toNat_of_nonneg (hnn x hx)).symm
+  conv_lhs => rw [this]
+  exact chunkRanges1_nat _
 
 /-! ### equal_sized_chunks -/
 
@@ -799,13 +878,15 @@ theorem auto_all_within_limit (shape : List Int) (c : Int) (hs : ∀ n ∈ shape
     have hzipv : shape.zip (fin.map fun p => fillVec p.2 p.1) = fin.map fun p => (p.2, fillVec p.2 p.1) := by
       rw [← hsnd]; exact zip_map_map _ _ fin
     have hassert : assertMatch shape (fin.map fun p => fillVec p.2 p.1) = .ok (fin.map fun p => fillVec p.2 p.1) := by
-      unfold assertMatch
-      rw [hzipv, if_pos]
-      rw [List.all_eq_true]
-      intro x hx
-      obtain ⟨p, hp, rfl⟩ := List.mem_map.1 hx
-      have := (fillVec_props p.2 p.1 (hb p hp).1 (hb p hp).2).1
-      simpa using this
+      apply assertMatch_of
+      · intro cc hcc x hx
+        obtain ⟨p, hp, rfl⟩ := List.mem_map.1 hcc
+        have := (fillVec_props p.2 p.1 (hb p hp).1 (hb p hp).2).2.2 x hx
+        omega
+      · rw [hzipv]
+        intro x hx
+        obtain ⟨p, hp, rfl⟩ := List.mem_map.1 hx
+        exact (fillVec_props p.2 p.1 (hb p hp).1 (hb p hp).2).1
     have hval : validateExplicit shape (fin.map fun p => Spec.int p.1) = .ok (fin.map fun p => fillVec p.2 p.1) := by
       unfold validateExplicit
       have hcl2 : checkLength shape (fin.map fun p => Spec.int p.1) = .ok () := by simp [checkLength, hlen]
@@ -844,6 +925,326 @@ theorem auto_all_within_limit (shape : List Int) (c : Int) (hs : ∀ n ∈ shape
 example : validateChunks [7, 9] (.int 10) none = .ok [[3, 3, 1], [3, 3, 3]] ∧
     (([[3, 3, 1], [3, 3, 3]] : List (List Int)).map maxOf).foldl (· * ·) 1 ≤ 10 := by decide +kernel
 
+/-! ### end to end: mixes of 'auto' with fixed ints / explicit tuples -/
+
+/-- a well-formed dimension: length ≥ 1 and 'auto', a positive int, -1, or an explicit tuple of positive ints summing to it -/
+def WF (d : Int × Spec) : Prop :=
+  1 ≤ d.1 ∧ match d.2 with
+    | .auto => True
+    | .int c => 1 ≤ c ∨ c = -1
+    | .tup cs => cs ≠ [] ∧ (∀ x ∈ cs, 1 ≤ x) ∧ cs.sum = d.1
+    | _ => False
+
+/-- chunk size the fixed dimension contributes to the budget (`current_chunks` of a non-auto dimension) -/
+def fixedCur (d : Int × Spec) : Int :=
+  match d.2 with
+  | .int c => if c = -1 then d.1 else c
+  | .tup cs => maxOf cs
+  | _ => 1
+
+def isAutoD (d : Int × Spec) : Bool := match d.2 with | .auto => true | _ => false
+
+lemma foldl_mul_eq (l : List Int) (a : Int) : l.foldl (· * ·) a = a * l.prod := by
+  induction l generalizing a with
+  | nil => simp
+  | cons x xs ih => simp only [List.foldl_cons, List.prod_cons, ih]; ring
+
+lemma classify_wf (d : Int × Spec) (h : WF d) :
+    classify d.1 (normalize d.1 d.2) = .ok (if isAutoD d then 1 else fixedCur d, if isAutoD d then d.1 else fixedCur d, isAutoD d) := by
+  obtain ⟨n, sp⟩ := d
+  cases sp with
+  | auto => simp [normalize, classify, isAutoD]
+  | int c => by_cases hc : c = -1 <;> simp [normalize, classify, isAutoD, fixedCur, hc]
+  | tup cs => have := h.2.1; simp [normalize, classify, isAutoD, fixedCur, this]
+  | str => exact absurd h.2 (by simp [WF])
+  | bad => exact absurd h.2 (by simp [WF])
+
+/-- the chunk tuples returned for the dimensions `ds` when the loop chose `fin` for the automatic ones -/
+def vec : List (Int × Spec) → List (Int × Int) → Validated
+  | [], _ => []
+  | (n, .auto) :: ds, (c, _) :: fs => fillVec n c :: vec ds fs
+  | (n, .auto) :: ds, [] => [] :: vec ds []
+  | (n, .int c) :: ds, fs => fillVec n (if c = -1 then n else c) :: vec ds fs
+  | (_, .tup cs) :: ds, fs => cs :: vec ds fs
+  | (_, _) :: ds, fs => [] :: vec ds fs
+
+lemma fillVec_big (n c : Int) (hn : 1 ≤ n) (hc : n < c) : fillVec n c = [n] := by
+  have h1 : n / c = 0 := Int.ediv_eq_zero_of_lt (by omega) hc
+  have h2 : n % c = n := Int.emod_eq_of_lt (by omega) hc
+  simp [fillVec, h1, h2]; omega
+
+/-- per dimension: fill-in succeeds, sums to the dimension, entries ≥ 1, and the largest chunk is at most the budgeted one -/
+lemma fixed_int_dim (n c : Int) (hn : 1 ≤ n) (hc : 1 ≤ c) :
+    fillDim n (.int c) = .ok (fillVec n c) ∧ (fillVec n c).sum = n ∧ (∀ x ∈ fillVec n c, 1 ≤ x) ∧
+      1 ≤ maxOf (fillVec n c) ∧ maxOf (fillVec n c) ≤ c := by
+  refine ⟨fillDim_int_eq n c (by omega) hc, ?_⟩
+  by_cases h : c ≤ n
+  · obtain ⟨h1, h2, h3⟩ := fillVec_props n c hc h
+    exact ⟨h1, h3, by omega, by omega⟩
+  · rw [fillVec_big n c hn (by omega)]
+    simp [maxOf]; omega
+
+
+lemma foldl_max_ge (a : Int) (l : List Int) : a ≤ l.foldl max a := by
+  induction l generalizing a with
+  | nil => exact le_refl _
+  | cons x xs ih => exact le_trans (le_max_left a x) (ih (max a x))
+
+lemma maxOf_ge_one (cs : List Int) (hne : cs ≠ []) (h : ∀ x ∈ cs, 1 ≤ x) : 1 ≤ maxOf cs := by
+  cases cs with
+  | nil => exact absurd rfl hne
+  | cons x xs => exact le_trans (h x (by simp)) (foldl_max_ge x xs)
+
+/-- the invariant carried through `rebuild` / `fill_in_chunk_sizes`, dimension by dimension -/
+lemma fill_rebuild (ds : List (Int × Spec)) (fin : List (Int × Int)) (hwf : ∀ d ∈ ds, WF d)
+    (hfin : fin.map Prod.snd = (ds.filter isAutoD).map Prod.fst) (hb : ∀ p ∈ fin, 1 ≤ p.1 ∧ p.1 ≤ p.2) :
+    let l := rebuild (ds.map fun d => normalize d.1 d.2) fin
+    l.length = ds.length ∧ l.all Spec.isIntOrTup = true ∧
+    fillIn (ds.map Prod.fst) l = .ok (vec ds fin) ∧
+    (∀ p ∈ (ds.map Prod.fst).zip (vec ds fin), p.2.sum = p.1) ∧
+    (∀ cc ∈ vec ds fin, ∀ x ∈ cc, 1 ≤ x) ∧
+    1 ≤ ((vec ds fin).map maxOf).prod ∧
+    1 ≤ ((ds.filter fun d => !isAutoD d).map fixedCur).prod * (fin.map Prod.fst).prod ∧
+    ((vec ds fin).map maxOf).prod ≤ ((ds.filter fun d => !isAutoD d).map fixedCur).prod * (fin.map Prod.fst).prod := by
+  induction ds generalizing fin with
+  | nil =>
+    have : fin = [] := by simpa using hfin
+    subst this
+    simp [rebuild, fillIn, vec, pure, Except.pure]
+  | cons d ds ih =>
+    obtain ⟨n, sp⟩ := d
+    have hw := hwf (n, sp) (by simp)
+    have hwf' : ∀ d ∈ ds, WF d := fun d hd => hwf d (by simp [hd])
+    have hn : 1 ≤ n := hw.1
+    cases sp with
+    | auto =>
+      cases fin with
+      | nil => simp [isAutoD] at hfin
+      | cons p fs =>
+        obtain ⟨c, n'⟩ := p
+        simp only [isAutoD, List.filter_cons, if_true, List.map_cons, List.cons.injEq] at hfin
+        obtain ⟨hn', hfs⟩ := hfin
+        subst hn'
+        have hc := hb (c, n') (by simp)
+        simp only at hc
+        obtain ⟨i1, i2, i3, i4, i5, i6, i7, i8⟩ := ih fs hwf' hfs (fun p hp => hb p (by simp [hp]))
+        obtain ⟨f1, f2, f3, f4, f5⟩ := fixed_int_dim n' c hn hc.1
+        have f6 : maxOf (fillVec n' c) = c := (fillVec_props n' c hc.1 hc.2).2.1
+        refine ⟨by simpa [rebuild, normalize] using i1, by simpa [rebuild, normalize, Spec.isIntOrTup] using i2, ?_, ?_, ?_, ?_, ?_, ?_⟩
+        · simp only [fillIn, List.map_cons, normalize, rebuild, List.zip_cons_cons, List.mapM_cons, f1, bind, Except.bind] at i3 ⊢
+          rw [i3]; rfl
+        · intro p hp
+          simp only [List.map_cons, vec, List.zip_cons_cons, List.mem_cons] at hp
+          rcases hp with rfl | hp
+          · exact f2
+          · exact i4 p hp
+        · intro cc hcc x hx
+          simp only [vec, List.mem_cons] at hcc
+          rcases hcc with rfl | hcc
+          · exact f3 x hx
+          · exact i5 cc hcc x hx
+        · simp only [vec, List.map_cons, List.prod_cons, f6]; nlinarith
+        · simp only [isAutoD, List.filter_cons, Bool.not_true, Bool.false_eq_true, if_false, List.map_cons, List.prod_cons]
+          simp only [isAutoD] at i7; nlinarith
+        · simp only [vec, List.map_cons, List.prod_cons, f6, isAutoD, List.filter_cons, Bool.not_true, Bool.false_eq_true, if_false]
+          simp only [isAutoD] at i8; nlinarith
+    | int c =>
+      have hfin' : fin.map Prod.snd = (ds.filter isAutoD).map Prod.fst := by simpa [isAutoD] using hfin
+      obtain ⟨i1, i2, i3, i4, i5, i6, i7, i8⟩ := ih fin hwf' hfin' hb
+      have hc' : 1 ≤ (if c = -1 then n else c) := by
+        rcases hw.2 with h | h
+        · have : c ≠ -1 := by omega
+          simp [this]; exact h
+        · simp [h]; exact hn
+      obtain ⟨f1, f2, f3, f4, f5⟩ := fixed_int_dim n (if c = -1 then n else c) hn hc'
+      have hnorm : normalize n (Spec.int c) = Spec.int (if c = -1 then n else c) := by
+        by_cases h : c = -1 <;> simp [normalize, h]
+      have hreb : rebuild (Spec.int (if c = -1 then n else c) :: ds.map fun d => normalize d.1 d.2) fin
+          = Spec.int (if c = -1 then n else c) :: rebuild (ds.map fun d => normalize d.1 d.2) fin := by
+        cases fin <;> simp [rebuild]
+      refine ⟨by simp only [List.map_cons, hnorm, hreb, List.length_cons, i1], by
+          simp only [List.map_cons, hnorm, hreb, List.all_cons, Spec.isIntOrTup, i2, Bool.and_self], ?_, ?_, ?_, ?_, ?_, ?_⟩
+      · simp only [fillIn, List.map_cons, hnorm, hreb, List.zip_cons_cons, List.mapM_cons, f1, bind, Except.bind] at i3 ⊢
+        rw [i3]; rfl
+      · intro p hp
+        simp only [List.map_cons, vec, List.zip_cons_cons, List.mem_cons] at hp
+        rcases hp with rfl | hp
+        · exact f2
+        · exact i4 p hp
+      · intro cc hcc x hx
+        simp only [vec, List.mem_cons] at hcc
+        rcases hcc with rfl | hcc
+        · exact f3 x hx
+        · exact i5 cc hcc x hx
+      · simp only [vec, List.map_cons, List.prod_cons]; nlinarith
+      · simp only [isAutoD, List.filter_cons, Bool.not_false, if_true, List.map_cons, List.prod_cons, fixedCur]
+        simp only [isAutoD] at i7; nlinarith
+      · simp only [vec, List.map_cons, List.prod_cons, isAutoD, List.filter_cons, Bool.not_false, if_true, fixedCur]
+        simp only [isAutoD] at i7 i8
+        have h0 : 0 ≤ ((vec ds fin).map maxOf).prod := by omega
+        calc maxOf (fillVec n (if c = -1 then n else c)) * ((vec ds fin).map maxOf).prod
+            ≤ (if c = -1 then n else c) * ((vec ds fin).map maxOf).prod := mul_le_mul_of_nonneg_right f5 h0
+          _ ≤ (if c = -1 then n else c) * (((ds.filter fun d => !(match d.2 with | Spec.auto => true | _ => false)).map fixedCur).prod
+                * (fin.map Prod.fst).prod) := mul_le_mul_of_nonneg_left i8 (by omega)
+          _ = _ := by ring
+    | tup cs =>
+      have hfin' : fin.map Prod.snd = (ds.filter isAutoD).map Prod.fst := by simpa [isAutoD] using hfin
+      obtain ⟨i1, i2, i3, i4, i5, i6, i7, i8⟩ := ih fin hwf' hfin' hb
+      obtain ⟨hne, hpos, hsum⟩ := hw.2
+      have hmax := maxOf_ge_one cs hne hpos
+      have hreb : rebuild (Spec.tup cs :: ds.map fun d => normalize d.1 d.2) fin
+          = Spec.tup cs :: rebuild (ds.map fun d => normalize d.1 d.2) fin := by
+        cases fin <;> simp [rebuild]
+      have hnorm : normalize n (Spec.tup cs) = Spec.tup cs := rfl
+      have f1 : fillDim n (Spec.tup cs) = .ok cs := rfl
+      refine ⟨by simp only [List.map_cons, hnorm, hreb, List.length_cons, i1], by
+          simp only [List.map_cons, hnorm, hreb, List.all_cons, Spec.isIntOrTup, i2, Bool.and_self], ?_, ?_, ?_, ?_, ?_, ?_⟩
+      · simp only [fillIn, List.map_cons, hnorm, hreb, List.zip_cons_cons, List.mapM_cons, f1, bind, Except.bind] at i3 ⊢
+        rw [i3]; rfl
+      · intro p hp
+        simp only [List.map_cons, vec, List.zip_cons_cons, List.mem_cons] at hp
+        rcases hp with rfl | hp
+        · exact hsum
+        · exact i4 p hp
+      · intro cc hcc x hx
+        simp only [vec, List.mem_cons] at hcc
+        rcases hcc with rfl | hcc
+        · exact hpos x hx
+        · exact i5 cc hcc x hx
+      · simp only [vec, List.map_cons, List.prod_cons]; nlinarith
+      · simp only [isAutoD, List.filter_cons, Bool.not_false, if_true, List.map_cons, List.prod_cons, fixedCur]
+        simp only [isAutoD] at i7; nlinarith
+      · simp only [vec, List.map_cons, List.prod_cons, isAutoD, List.filter_cons, Bool.not_false, if_true, fixedCur]
+        simp only [isAutoD] at i7 i8
+        have h0 : 0 ≤ maxOf cs := by omega
+        calc maxOf cs * ((vec ds fin).map maxOf).prod
+            ≤ maxOf cs * (((ds.filter fun d => !(match d.2 with | Spec.auto => true | _ => false)).map fixedCur).prod
+                * (fin.map Prod.fst).prod) := mul_le_mul_of_nonneg_left i8 h0
+          _ = _ := by ring
+    | str => exact absurd hw.2 (by simp [WF])
+    | bad => exact absurd hw.2 (by simp [WF])
+
+
+lemma fillIn_all_tup (shape : List Int) (l : List Spec) (hlen : shape.length = l.length) (h : l.all Spec.isTup = true) :
+    fillIn shape l = .ok (l.map Spec.tupVal) := by
+  induction l generalizing shape with
+  | nil => cases shape <;> simp_all [fillIn, pure, Except.pure]
+  | cons c cs ih =>
+    cases shape with
+    | nil => simp at hlen
+    | cons s ss =>
+      simp only [List.all_cons, Bool.and_eq_true] at h
+      have := ih ss (by simpa using hlen) h.2
+      cases c <;> simp [Spec.isTup] at h
+      simp only [fillIn, List.zip_cons_cons, List.mapM_cons, fillDim, bind, Except.bind, List.map_cons, Spec.tupVal] at this ⊢
+      rw [this]; rfl
+
+lemma validateExplicit_of_fill (shape : List Int) (l : List Spec) (v : Validated) (hlen : shape.length = l.length)
+    (h : l.all Spec.isIntOrTup = true) (hf : fillIn shape l = .ok v) : validateExplicit shape l = assertMatch shape v := by
+  unfold validateExplicit
+  have hcl : checkLength shape l = .ok () := by simp [checkLength, hlen]
+  simp only [hcl, bind, Except.bind]
+  by_cases ht : l.all Spec.isTup = true
+  · have := fillIn_all_tup shape l hlen ht
+    rw [hf] at this
+    injection this with this
+    simp [ht, this]
+  · simp [ht, h, hf]
+
+lemma filter_map_cls (ds : List (Int × Spec)) :
+    ((ds.map fun d => ((if isAutoD d then (1 : Int) else fixedCur d), (if isAutoD d then d.1 else fixedCur d), isAutoD d)).filter
+        fun t => t.2.2).map (fun t => (t.1, t.2.1)) = (ds.filter isAutoD).map fun d => ((1 : Int), d.1) := by
+  induction ds with
+  | nil => rfl
+  | cons d ds ih => by_cases h : isAutoD d = true <;> simp [h, ih]
+
+lemma filter_map_cls_fixed (ds : List (Int × Spec)) :
+    ((ds.map fun d => ((if isAutoD d then (1 : Int) else fixedCur d), (if isAutoD d then d.1 else fixedCur d), isAutoD d)).filter
+        fun t => !t.2.2).map (fun t => t.1) = (ds.filter fun d => !isAutoD d).map fixedCur := by
+  induction ds with
+  | nil => rfl
+  | cons d ds ih => by_cases h : isAutoD d = true <;> simp [h, ih]
+
+lemma classify_all (ds : List (Int × Spec)) (hwf : ∀ d ∈ ds, WF d) :
+    (ds.map fun d => (d.1, normalize d.1 d.2)).mapM (fun (x : Int × Spec) => classify x.1 x.2)
+      = .ok (ds.map fun d => ((if isAutoD d then (1 : Int) else fixedCur d), (if isAutoD d then d.1 else fixedCur d), isAutoD d)) := by
+  induction ds with
+  | nil => rfl
+  | cons d ds ih =>
+    have h1 := classify_wf d (hwf d (by simp))
+    have h2 := ih fun d hd => hwf d (by simp [hd])
+    simp only [List.map_cons, List.mapM_cons, h1, h2, bind, Except.bind]
+    rfl
+
+lemma zipWith_normalize_map (ds : List (Int × Spec)) :
+    List.zipWith normalize (ds.map Prod.fst) (ds.map Prod.snd) = ds.map fun d => normalize d.1 d.2 := by
+  induction ds with
+  | nil => rfl
+  | cons d ds ih => simp [ih]
+
+/-- **Automatic chunking end to end, mixed specifications**: every dimension ≥ 1; each specification 'auto', a positive
+int, -1, or an explicit tuple of positive ints summing to the dimension; at least one 'auto'; and a valid chunking
+exists (the product of the fixed dimensions' largest chunks is within the limit).  Then `validate_chunks` succeeds, its
+chunks are ≥ 1 and sum to the shape, and the largest block (product of the largest chunk per dimension) has at most
+`M` elements. -/
+theorem auto_mixed_within_limit (ds : List (Int × Spec)) (M : Int) (hwf : ∀ d ∈ ds, WF d)
+    (hauto : ∃ d ∈ ds, isAutoD d = true) (hF : ((ds.filter fun d => !isAutoD d).map fixedCur).prod ≤ M) :
+    ∃ v, validateChunks (ds.map Prod.fst) (.tuple (ds.map Prod.snd)) (some M) = .ok v ∧ (v.map maxOf).prod ≤ M ∧
+      (∀ cc ∈ v, ∀ x ∈ cc, 1 ≤ x) ∧ List.Forall₂ (fun s c => c.sum = s) (ds.map Prod.fst) v := by
+  have hn : ∀ n ∈ (ds.filter isAutoD).map Prod.fst, 1 ≤ n := by
+    intro n hn
+    obtain ⟨d, hd, rfl⟩ := List.mem_map.1 hn
+    exact (hwf d (List.mem_filter.1 hd).1).1
+  have hones : prodCur (((ds.filter isAutoD).map Prod.fst).map fun n => ((1 : Int), n)) = 1 := by
+    unfold prodCur
+    apply foldl_mul_ones
+    intro x hx
+    simp only [List.map_map, List.mem_map, Function.comp] at hx
+    obtain ⟨n, _, rfl⟩ := hx; rfl
+  obtain ⟨fin, hrun, hfit, hb, hsnd⟩ := auto_loop_within_limit
+    (((ds.filter fun d => !isAutoD d).map fixedCur).prod) M ((ds.filter isAutoD).map Prod.fst) hn (by rw [hones]; omega)
+  obtain ⟨i1, i2, i3, i4, i5, i6, i7, i8⟩ := fill_rebuild ds fin hwf hsnd hb
+  have hassert : assertMatch (ds.map Prod.fst) (vec ds fin) = .ok (vec ds fin) :=
+    assertMatch_of _ _ (fun cc hcc x hx => by have := i5 cc hcc x hx; omega) i4
+  have hlenv : (vec ds fin).length = ds.length := by
+    have := fillIn_length _ _ _ i3
+    rw [this]; simp [i1]
+  refine ⟨vec ds fin, ?_, ?_, i5, forall₂_of_zip _ _ _ (by simp [hlenv]) (fun p hp => i4 p hp)⟩
+  · have hcl : checkLength (ds.map Prod.fst) (ds.map Prod.snd) = .ok () := by simp [checkLength]
+    have hnt : (ds.map Prod.snd).all Spec.isTup = false := by
+      obtain ⟨d, hd, ha⟩ := hauto
+      rw [List.all_eq_false]
+      refine ⟨d.2, List.mem_map_of_mem hd, ?_⟩
+      obtain ⟨n, sp⟩ := d
+      cases sp <;> simp_all [isAutoD, Spec.isTup]
+    have hstr : (ds.map Prod.snd).any Spec.isStr = true := by
+      obtain ⟨d, hd, ha⟩ := hauto
+      rw [List.any_eq_true]
+      refine ⟨d.2, List.mem_map_of_mem hd, ?_⟩
+      obtain ⟨n, sp⟩ := d
+      cases sp <;> simp_all [isAutoD, Spec.isStr]
+    have hcls := classify_all ds hwf
+    have hzip : (ds.map Prod.fst).zip (ds.map fun d => normalize d.1 d.2) = ds.map fun d => (d.1, normalize d.1 d.2) :=
+      zip_map_map _ _ ds
+    have hautos := filter_map_cls ds
+    have hfixed : (((ds.map fun d => ((if isAutoD d then (1 : Int) else fixedCur d), (if isAutoD d then d.1 else fixedCur d), isAutoD d)).filter
+        fun t => !t.2.2).map fun t => t.1).foldl (· * ·) 1 = ((ds.filter fun d => !isAutoD d).map fixedCur).prod := by
+      rw [filter_map_cls_fixed, foldl_mul_eq, one_mul]
+    have hrun' : autoRun (((ds.filter fun d => !isAutoD d).map fixedCur).prod) M ((ds.filter isAutoD).map fun d => ((1 : Int), d.1)) = .ok fin := by
+      rw [List.map_map] at hrun; exact hrun
+    have hve := validateExplicit_of_fill (ds.map Prod.fst) _ (vec ds fin) (by simp [i1]) i2 i3
+    have hauto' : autoChunks (ds.map Prod.fst) (ds.map Prod.snd) (some M) = .ok (vec ds fin) := by
+      unfold autoChunks
+      simp only [hcl, bind, Except.bind, zipWith_normalize_map, hzip, hcls, hautos, hfixed, hrun', hve, hassert]
+    simp only [validateChunks, hcl, hnt, hstr, hauto', bind, Except.bind, Bool.false_eq_true, if_false, if_true, hassert]
+  · calc ((vec ds fin).map maxOf).prod
+        ≤ ((ds.filter fun d => !isAutoD d).map fixedCur).prod * (fin.map Prod.fst).prod := i8
+      _ = ((ds.filter fun d => !isAutoD d).map fixedCur).prod * prodCur fin := by
+          unfold prodCur; rw [foldl_mul_eq, one_mul]
+      _ ≤ M := hfit
+
+example : validateChunks [5, 100] (.tuple [.auto, .int 100]) (some 250) = .ok [[2, 2, 1], [100]] := by decide +kernel
+
 /-! ### `max_elements` given in bytes -/
 
 lemma rat_floor_eq (q : Rat) : q.floor = ⌊q⌋ := rfl
@@ -875,7 +1276,8 @@ theorem auto_max_elements_spec (nbytes itemsize : Nat) (hi : 1 ≤ itemsize) :
 /-! ### non-vacuity: concrete instances of hypotheses and conclusions -/
 example : validateChunks [7, 9] (.int 10) none = .ok [[3, 3, 1], [3, 3, 3]] := by decide +kernel
 example : validateChunks [5, 100] (.tuple [.auto, .int 100]) (some 50) = .ok [[1, 1, 1, 1, 1], [100]] := by decide +kernel
-example : validateChunks [5] (.tuple [.tup [3, -1, 3]]) none = .ok [[3, -1, 3]] := by decide +kernel
+example : validateChunks [5] (.tuple [.tup [3, -1, 3]]) none = .error "value_error" := by decide +kernel
+example : validateChunks [5] (.tuple [.tup [3, 0, 2]]) none = .ok [[3, 0, 2]] := by decide +kernel
 example : validateChunks [0] (.int (-1)) none = .error "zero_division" := by decide +kernel
 example : validateChunks [1, 100] (.tuple [.auto, .int 100]) (some 50) = .error "runtime_error" := by decide +kernel
 example : equalSizedChunks 5 (some 2) none = .ok [2, 3] := by decide +kernel
